@@ -223,10 +223,15 @@ def run(repo: Repo) -> Result:
                 if bad:
                     res.add("C11-IDENT", c.qual, f"state:{text(st.targets[0])}<-{sorted(bad)}", f"{c.qual}.__init__ stores `{text(st)[:60]}`, which depends on {sorted(bad)} — tag instances may only hold their environment and values derived from it", c.file, st.lineno)
     # no global parser / lexer state: Parser and TokenStream are created per parse
-    ep = repo.own_method("liquid.environment.Environment", "_parse")
+    from ..normalize import nfunc
+
+    # (small helper methods of the environment — e.g. a public `tokenize(source)` wrapper — are
+    #  inlined, single-use locals substituted, before the shape is read)
+    ep = nfunc(repo, repo.own_method("liquid.environment.Environment", "_parse"), small_public=3, keep=("tokenizer", "get_parser", "parse"))
     res.ob(ep.qual)
     t = text(ep.node)
-    if "get_parser(self)" not in t or "self.tokenizer()(source)" not in t or "TokenStream(" not in t:
+    tok_calls = [c for c in ast.walk(ep.node) if isinstance(c, ast.Call) and isinstance(c.func, ast.Call) and callee_name(c.func) == "tokenizer" and text(c.func.func) == "self.tokenizer" and [text(a) for a in c.args] == ["source"]]
+    if "get_parser(self)" not in t or not tok_calls or "TokenStream(" not in t:
         res.add("C11-IDENT", ep.qual, "per-env", "Environment._parse must use get_parser(self), self.tokenizer() and a fresh TokenStream", ep.file, ep.line)
     gp = repo.func("liquid.parser.get_parser")
     res.ob(gp.qual)
